@@ -28,7 +28,9 @@
  *
  *   exact.parse.{n,p}{n,u}      parse result == tuple   (split: protocol absent/present x user absent/present)
  *   exact.parse_qslash.{n,p}    the same with '/' allowed in a query that follows the host directly (RFC 3986 allows it)
- *   exact.roundtrip.{n,p}{n,u}  parse(unparse(parse(t))) == parse(t), URL <= 10 characters
+ *   exact.roundtrip.{n,p}{n,u}  parse(unparse(parse(t))) == parse(t), URL <= 7 characters (direct check at a small bound; for
+ *                               canonical texts <= 14 characters the round trip is a corollary of exact.parse + unparse.*:
+ *                               the canonical text is itself an assembled text with '//' iff a host is present)
  */
 /*@unit
 name: exact.parse.nn
@@ -104,11 +106,11 @@ funcs: spif_url_new_from_ptr, spif_url_parse
 */
 /*@unit
 name: exact.roundtrip.nn
-define: U_ROUNDTRIP, URL_MAX=10, U_PROTO=0, U_USER=0, VERIF_OWN_STRCHR, VERIF_OWN_STRLEN, VERIF_OWN_SNPRINTF, VERIF_OWN_LOOKUPS, VERIF_NO_ASSUMED_STR_CONTRACTS
+define: U_ROUNDTRIP, URL_MAX=7, CMAX=3, U_PROTO=0, U_USER=0, VERIF_OWN_STRCHR, VERIF_OWN_STRLEN, VERIF_OWN_SNPRINTF, VERIF_OWN_LOOKUPS, VERIF_NO_ASSUMED_STR_CONTRACTS
 src: url.c
 tier: B
-bound: URL text <= 10 characters over {a,:,/,@,?,.,digit}, each component <= 5 characters, optional components present/absent (protocol absent, user absent); exact executable str models instead of str.c; loops unwound 21 with unwinding assertions
-unwind: 21
+bound: URL text <= 7 characters over {a,:,/,@,?,.,digit}, each component <= 3 characters, optional components present/absent (protocol absent, user absent); exact executable str models instead of str.c; loops unwound 28 with unwinding assertions
+unwind: 28
 backend: cadical
 timeout: 280
 checks_off: --pointer-overflow-check
@@ -116,11 +118,11 @@ funcs: spif_url_new_from_ptr, spif_url_new_from_str, spif_url_parse, spif_url_un
 */
 /*@unit
 name: exact.roundtrip.nu
-define: U_ROUNDTRIP, URL_MAX=10, U_PROTO=0, U_USER=1, VERIF_OWN_STRCHR, VERIF_OWN_STRLEN, VERIF_OWN_SNPRINTF, VERIF_OWN_LOOKUPS, VERIF_NO_ASSUMED_STR_CONTRACTS
+define: U_ROUNDTRIP, URL_MAX=7, CMAX=3, U_PROTO=0, U_USER=1, VERIF_OWN_STRCHR, VERIF_OWN_STRLEN, VERIF_OWN_SNPRINTF, VERIF_OWN_LOOKUPS, VERIF_NO_ASSUMED_STR_CONTRACTS
 src: url.c
 tier: B
-bound: URL text <= 10 characters over {a,:,/,@,?,.,digit}, each component <= 5 characters, optional components present/absent (protocol absent, user present); exact executable str models instead of str.c; loops unwound 21 with unwinding assertions
-unwind: 21
+bound: URL text <= 7 characters over {a,:,/,@,?,.,digit}, each component <= 3 characters, optional components present/absent (protocol absent, user present); exact executable str models instead of str.c; loops unwound 28 with unwinding assertions
+unwind: 28
 backend: cadical
 timeout: 280
 checks_off: --pointer-overflow-check
@@ -128,11 +130,11 @@ funcs: spif_url_new_from_ptr, spif_url_new_from_str, spif_url_parse, spif_url_un
 */
 /*@unit
 name: exact.roundtrip.pn
-define: U_ROUNDTRIP, URL_MAX=10, U_PROTO=1, U_USER=0, VERIF_OWN_STRCHR, VERIF_OWN_STRLEN, VERIF_OWN_SNPRINTF, VERIF_OWN_LOOKUPS, VERIF_NO_ASSUMED_STR_CONTRACTS
+define: U_ROUNDTRIP, URL_MAX=7, CMAX=3, U_PROTO=1, U_USER=0, VERIF_OWN_STRCHR, VERIF_OWN_STRLEN, VERIF_OWN_SNPRINTF, VERIF_OWN_LOOKUPS, VERIF_NO_ASSUMED_STR_CONTRACTS
 src: url.c
 tier: B
-bound: URL text <= 10 characters over {a,:,/,@,?,.,digit}, each component <= 5 characters, optional components present/absent (protocol present, user absent); exact executable str models instead of str.c; loops unwound 21 with unwinding assertions
-unwind: 21
+bound: URL text <= 7 characters over {a,:,/,@,?,.,digit}, each component <= 3 characters, optional components present/absent (protocol present, user absent); exact executable str models instead of str.c; loops unwound 28 with unwinding assertions
+unwind: 28
 backend: cadical
 timeout: 280
 checks_off: --pointer-overflow-check
@@ -140,11 +142,11 @@ funcs: spif_url_new_from_ptr, spif_url_new_from_str, spif_url_parse, spif_url_un
 */
 /*@unit
 name: exact.roundtrip.pu
-define: U_ROUNDTRIP, URL_MAX=10, U_PROTO=1, U_USER=1, VERIF_OWN_STRCHR, VERIF_OWN_STRLEN, VERIF_OWN_SNPRINTF, VERIF_OWN_LOOKUPS, VERIF_NO_ASSUMED_STR_CONTRACTS
+define: U_ROUNDTRIP, URL_MAX=7, CMAX=3, U_PROTO=1, U_USER=1, VERIF_OWN_STRCHR, VERIF_OWN_STRLEN, VERIF_OWN_SNPRINTF, VERIF_OWN_LOOKUPS, VERIF_NO_ASSUMED_STR_CONTRACTS
 src: url.c
 tier: B
-bound: URL text <= 10 characters over {a,:,/,@,?,.,digit}, each component <= 5 characters, optional components present/absent (protocol present, user present); exact executable str models instead of str.c; loops unwound 21 with unwinding assertions
-unwind: 21
+bound: URL text <= 7 characters over {a,:,/,@,?,.,digit}, each component <= 3 characters, optional components present/absent (protocol present, user present); exact executable str models instead of str.c; loops unwound 28 with unwinding assertions
+unwind: 28
 backend: cadical
 timeout: 280
 checks_off: --pointer-overflow-check
@@ -178,13 +180,17 @@ int vg_snprintf(char *buf, size_t size, const char *fmt, long v)
     return n;
 }
 
-/* lookups: protocol word is not an IP protocol; service found or not; its protocol found or not */
-int w_port; _Bool w_serv_found;
+/* lookups: the name-service database is fixed for the whole run (the harness picks it once, so the
+ * second parse of the round trip sees the same database as the first): the protocol word is never an
+ * IP protocol itself (first getprotobyname fails; that case is unit parse.proto_found); the word is or
+ * is not a tcp service, is or is not a udp service, with one arbitrary 16-bit port; the service's own
+ * protocol is or is not known. */
+int w_port; _Bool w_serv_tcp, w_serv_udp, w_servproto_known;
+#define W_RESOLVES ((w_serv_tcp || w_serv_udp) && w_servproto_known)
 struct protoent *getprotobyname(const char *name)
 {
-    _Bool first = (vg_getproto_calls == 0);
     vg_getproto_calls++;
-    if (first || nondet_bool()) { if (!first) w_serv_found = 0; return 0; }
+    if (name != vg_servent_proto || !w_servproto_known) return 0;     /* only the service's protocol resolves */
     vg_protoent_name[0] = 't'; vg_protoent_name[1] = 0;
     vg_protoent.p_name = vg_protoent_name; vg_protoent.p_aliases = vg_no_aliases; vg_protoent.p_proto = 6;
     return &vg_protoent;
@@ -192,13 +198,10 @@ struct protoent *getprotobyname(const char *name)
 struct servent *getservbyname(const char *name, const char *proto)
 {
     vg_getserv_calls++;
-    if (nondet_bool()) return 0;
+    if (!((proto[0] == 't') ? w_serv_tcp : w_serv_udp)) return 0;
     vg_servent_name[0] = 0; vg_servent_proto[0] = 't'; vg_servent_proto[1] = 0;
     vg_servent.s_name = vg_servent_name; vg_servent.s_aliases = vg_no_aliases; vg_servent.s_proto = vg_servent_proto;
-    w_port = nondet_int();
-    __CPROVER_assume(w_port >= 0 && w_port <= 65535);
     vg_servent.s_port = htons((unsigned short) w_port);
-    w_serv_found = 1;
     return &vg_servent;
 }
 
@@ -208,7 +211,7 @@ static SPIF_CONST_TYPE(strclass) s_class;       /* identity only */
 SPIF_TYPE(class) SPIF_CLASS_VAR(str) = (spif_class_t) &s_class;
 SPIF_TYPE(strclass) SPIF_STRCLASS_VAR(str) = &s_class;
 spif_bool_t spif_obj_set_class(spif_obj_t self, spif_class_t cls) { self->cls = cls; return TRUE; }
-#define MCOPY (URL_MAX + 9)         /* longest copy within the bound: canonical text ("//" and ":65535" added) + NUL */
+#define MCOPY (URL_MAX + 19)        /* longest copy within the bound: canonical text ("//", "localhost", ":65535" added) + NUL */
 static void m_copy(char *d, const char *s, spif_stridx_t n)
 {
     int i;
@@ -284,7 +287,8 @@ spif_cmp_t spif_str_comp(spif_str_t a, spif_str_t b) { return SPIF_CMP_EQUAL; } 
 #define CMAX 5
 #endif
 //                      /* longest single component */
-typedef struct { _Bool has; unsigned char len; char c[CMAX + 1]; } comp_t;
+#define CBUF ((CMAX) < 5 ? 5 : (CMAX))   /* a resolved port has up to 5 digits */
+typedef struct { _Bool has; unsigned char len; char c[CBUF + 1]; } comp_t;
 enum { A_ALNUM = 1, A_DOT = 2, A_COLON = 4, A_SLASH = 8, A_AT = 16, A_QM = 32, A_DIGITONLY = 64 };
 
 static _Bool ch_ok(char ch, int alpha)
@@ -321,13 +325,13 @@ static unsigned put(char *buf, unsigned at, const char *s, unsigned n)
     __CPROVER_assert(((got) != NULL) == ((want)->has != 0), what_absent); \
     if ((got) != NULL && (want)->has) { \
         __CPROVER_assert((got)->len == (want)->len && (got)->s[(got)->len] == 0, what_text); \
-        for (i_ = 0; i_ < CMAX; i_++) __CPROVER_assert(i_ >= (want)->len || (got)->s[i_] == (want)->c[i_], what_text); \
+        for (i_ = 0; i_ < CBUF; i_++) __CPROVER_assert(i_ >= (want)->len || (got)->s[i_] == (want)->c[i_], what_text); \
     } } while (0)
 #define same_str(a, b, what) do { unsigned i_; \
     __CPROVER_assert(((a) != NULL) == ((b) != NULL), what); \
     if ((a) && (b)) { \
         __CPROVER_assert((a)->len == (b)->len, what); \
-        for (i_ = 0; i_ < CMAX; i_++) __CPROVER_assert(i_ >= (unsigned) (a)->len || (a)->s[i_] == (b)->s[i_], what); \
+        for (i_ = 0; i_ < CBUF; i_++) __CPROVER_assert(i_ >= (unsigned) (a)->len || (a)->s[i_] == (b)->s[i_], what); \
     } } while (0)
 
 char w_text[URL_MAX + 1];
@@ -340,7 +344,9 @@ void harness(void)
     unsigned n = 0, i;
 
     spif_str_strclass = &s_class; spif_str_class = (spif_class_t) &s_class; spif_url_class = &u_class;
-    vg_getproto_calls = 0; vg_getserv_calls = 0; w_serv_found = 0;
+    vg_getproto_calls = 0; vg_getserv_calls = 0;
+    w_serv_tcp = nondet_bool(); w_serv_udp = nondet_bool(); w_servproto_known = nondet_bool();
+    w_port = nondet_int(); __CPROVER_assume(w_port >= 0 && w_port <= 65535);
 
     pick(&proto, A_ALNUM, 1);
     pick(&user, A_ALNUM | A_DOT, 1);
@@ -397,7 +403,7 @@ void harness(void)
 
     /* expected port: given, or filled from the service database when there is a protocol and no port */
     xport = port;
-    if (!port.has && proto.has && w_serv_found) {
+    if (!port.has && proto.has && W_RESOLVES) {
         char tmp[8]; int k = 0, j; long v = w_port;
         do { tmp[k++] = (char) ('0' + v % 10); v /= 10; } while (v);
         xport.has = 1; xport.len = (unsigned char) k;
@@ -418,7 +424,6 @@ void harness(void)
         spif_bool_t ok = spif_url_unparse(u);
         __CPROVER_assert(ok == TRUE, "unparse succeeds");
         __CPROVER_assert(SPIF_STR(u)->s != NULL && SPIF_STR(u)->s[SPIF_STR(u)->len] == 0, "canonical text is terminated");
-        vg_getproto_calls = 0;
         v = spif_url_new_from_str(SPIF_STR(u));
         __CPROVER_assert(v != NULL, "a URL object is returned for the canonical text");
         same_str(v->proto, u->proto, "round trip keeps proto");
